@@ -136,8 +136,8 @@ func (f *facts) kill(path string) {
 
 // nilSummary of a module function.
 type nilSummary struct {
-	requires     map[int]string // parameter index (receiver = 0 for methods) → description of the unguarded dereference
-	mayReturnNil map[int]bool   // result index → may be nil while the error result (if any) is nil
+	requires     map[int]string  // parameter index (receiver = 0 for methods) → description of the unguarded dereference
+	mayReturnNil map[int]bool    // result index → may be nil while the error result (if any) is nil
 	retFields    map[string]bool // fields of result 0 that are non-nil on every return (constructors)
 	retSeen      bool
 	done         bool
@@ -225,7 +225,7 @@ type nilWalker struct {
 	nodefs map[types.Object]bool // `var x *T` without value
 	multi  map[types.Object][]ast.Expr
 	rangeV map[types.Object]ast.Expr // range value variable → ranged expression
-	resErr int                      // index of the error result or -1
+	resErr int                       // index of the error result or -1
 	nres   int
 	named  []types.Object
 }
